@@ -18,7 +18,7 @@ META = {
                    "positions, costs, fitness and rates in every generation.",
     "bounds": {"quick": "population 2-3, 1-2 cycles, retry loop of get_partner_index <= 3 draws", "thorough": "population 3, 2 cycles"},
     "outside": "randomness inside the 84 update rules (H4: a module-level grep of `random.` / `default_rng` is in the "
-               "monitor); roulette_wheel_indexes / get_levy_flight_step (np.random.choice(size,p) / normal: no model)",
+               "monitor); get_levy_flight_step (np.random.normal: no model)",
     "stubs": ["np.random.seed/uniform/random/choice/randint/permutation -> stream keyed by (seed,index)",
               "random.randint/random -> independent stream per run", "every other random entry point: deny (inconclusive)"],
     "assumptions": ["np.random.seed(s) accepts None or int in [0,2^32) and raises for float (spot-checked each run)",
@@ -97,6 +97,12 @@ def ob_two_runs(names, n, cycles, helpers, hook_draws=False):
                         elif "selection" in helpers:
                             k = H.random_selection([1.0 / n] * n)
                             base = o._population[k].position
+                        elif "roulette-flat" in helpers:          # the whole population ties: the flat-wheel branch
+                            k = int(H.roulette_wheel_indexes(np.array([1.0] * n))[0])
+                            base = o._population[k].position
+                        elif "roulette" in helpers:
+                            k = int(H.roulette_wheel_indexes(np.array([float(q) for q in range(n)]))[0])
+                            base = o._population[k].position
                         else:
                             base = None
                         new.append(o._init_agent(base if base is not None and j % 2 == 0 else None))
@@ -173,6 +179,8 @@ def obligations(tier):
         n = 1 if names == ("P3",) and not th else 2          # (two permutation agents: 6^4 stream orders)
         obs.append(Ob(f"two_runs[{'+'.join(names)},plain,n={n}]", ob_two_runs(names, n, 1, ()), 600))
     obs.append(Ob("two_runs[C,selection,n=2]", ob_two_runs(("C",), 2, 1, ("selection",)), 900))
+    obs.append(Ob("two_runs[C,roulette-flat,n=3]", ob_two_runs(("C",), 3, 1, ("roulette-flat",)), 900))
+    obs.append(Ob("two_runs[C,roulette,n=3]", ob_two_runs(("C",), 3, 1, ("roulette",)), 900))
     obs.append(Ob("two_runs[C,partner,n=3]", ob_two_runs(("C",), 3, 1, ("partner",)), 1800))   # n=2: partner is forced
     if th:
         obs.append(Ob("two_runs[C,selection,n=3]", ob_two_runs(("C",), 3, 1, ("selection",)), 1800))
